@@ -265,6 +265,11 @@ int32_t jls_raw_wr_payload(struct jls_raw_s * self, uint32_t payload_length, con
     if (!payload) {
         return JLS_ERROR_PARAMETER_INVALID;
     }
+    if (payload_length != hdr->payload_length) {
+        // rewriting the payload of an existing chunk: the caller's buffer must match the header on disk
+        JLS_LOGE("payload length mismatch: %" PRIu32 " != %" PRIu32, payload_length, hdr->payload_length);
+        return JLS_ERROR_PARAMETER_INVALID;
+    }
 
     uint8_t footer[CRC_SIZE + HEADER_ALIGN];
     memset(footer, 0, sizeof(footer));
